@@ -10,7 +10,38 @@ mod util;
 
 use vp_common::{Cli, report};
 
+/// Child mode: run the application exactly as its binary does (`passage::start`, which wires ctrl-c to
+/// the stop token) so that the parent can send SIGINT to this process.
+fn child_start(port: u16, timeout: u64) -> ! {
+    use passage::config::{Adapters, AuthenticationAdapter, Config, DiscoveryAdapter, FixedAuthentication, FixedDiscovery};
+    let config = Config {
+        address: format!("127.0.0.1:{port}"),
+        timeout,
+        adapters: Adapters {
+            discovery: DiscoveryAdapter::Fixed(FixedDiscovery { targets: vec![passage_adapters::Target { identifier: "only".into(), address: "10.9.8.7:25565".parse().expect("addr"), meta: Default::default() }] }),
+            authentication: AuthenticationAdapter::Fixed(FixedAuthentication { profile: passage_adapters::authentication::Profile { id: uuid::Uuid::from_u128(5), name: "Child".into(), properties: vec![], profile_actions: vec![] } }),
+            ..Default::default()
+        },
+        ..Default::default()
+    };
+    let rt = tokio::runtime::Builder::new_multi_thread().worker_threads(2).enable_all().build().expect("runtime");
+    let code = match rt.block_on(passage::start(config)) {
+        Ok(()) => 0,
+        Err(e) => {
+            eprintln!("passage::start failed: {e}");
+            3
+        }
+    };
+    std::process::exit(code);
+}
+
 fn main() {
+    let argv: Vec<String> = std::env::args().collect();
+    if argv.get(1).map(|a| a == "--child-start").unwrap_or(false) {
+        let port = argv.get(2).and_then(|p| p.parse().ok()).unwrap_or(0);
+        let timeout = argv.get(3).and_then(|p| p.parse().ok()).unwrap_or(2);
+        child_start(port, timeout);
+    }
     let cli = Cli::parse();
     report::watchdog(&cli.prop, if cli.tier == vp_common::Tier::Quick { 400 } else { 1500 });
     if let Err(e) = vp_common::refcrypto::self_test() {
